@@ -1,10 +1,36 @@
 """C19 — public coin contract (crypto/src/random/default.rs, Randomizable impls of math/src/field/*)."""
 import hashlib
 import json
+import os
 import re
 import threading
 
 import vcheck
+
+
+# signature of the one open finding (copy of notes/C19.findings.json, used when that file has not been merged into
+# known_findings.json yet or is missing): the check prints KNOWN-FINDING for exactly this failure and reports any other
+_F1 = {"id": "C19-F1-seed-reseed-shape-ambiguity", "property": "C19", "status": "open",
+       "what": "new(E) and new(E').reseed(d) are the same coin when bytes(E) = hash_elements(E') || d: the hashers do not separate "
+               "hash_elements from merge (Blake3_256, Blake3_192, Sha3_256, Rp64_256); no hash collision involved; see notes/C19.findings.json",
+       "match": {"what": r"^history shape ambiguity: new\(E\) and new\(E'\)\.reseed\(d\) are the same coin",
+                 "input": r"^(Blake3_256|Blake3_192|Sha3_256|Rp64_256) f(64|128) "}}
+
+
+def _load_known(ctx):
+    have = {k.get("id") for k in ctx.known}
+    items = []
+    p = os.path.join(vcheck.VERIF, "notes", "C19.findings.json")
+    try:
+        d = json.load(open(p))
+        items = [i for i in d.get("findings", []) if i.get("property") == "C19"]
+    except (OSError, ValueError):
+        items = []
+    if not any(i.get("id") == _F1["id"] for i in items):
+        items.append(_F1)
+    for i in items:
+        if i.get("id") not in have:
+            ctx.known.append(i)
 
 
 def _falsify(ctx, hb, profile, budget):
@@ -78,9 +104,10 @@ def _corr_parallel(ctx, name, lines, drv, chunks):
 
 def run(ctx):
     quick = ctx.tier == "quick"
+    _load_known(ctx)
     ctx.rule = ("correspondence: whole histories new(seed) ; (reseed | draw base/quadratic/cubic | draw_integers | check_leading_zeros | "
                 "nonce search)* ; probe, run on the real DefaultRandomCoin over ToyHasher<B> (8-byte digest) and WideToy<B,MODE> "
-                "(32-byte digest; modes that force the rejection branch and the 1000-try failure) for B in f64/f62/f128, every "
+                "(32-byte digest; modes that force the rejection branch, the 1000-try failure, and a first admissible candidate placed at try 998..1002) for B in f64/f62/f128, every "
                 "output token and error class (ok/err/panic) compared with the extracted Gallina model. Boundary stream first: "
                 "every domain size 2^1..2^32 with counts 1 and min(255,dom-1) and nonces 0/1/u64::MAX, every count 1..255, counts "
                 ">= domain size, non-powers of two, zero counts, 999..1001 and 2000 values (iteration limit), seed lengths "
